@@ -35,7 +35,10 @@ def run_line_job(job, seed):
     except HarnessError:
         raise
     except Exception as e:
-        clause, detail = runner.classify_exception(e)
+        if isinstance(e, Violation):
+            clause, detail = e.clause, e.detail
+        else:
+            clause, detail = runner.classify_exception(e)
         return {'result': {'scenario': spec['name'], 'states': 1, 'transitions': 0, 'facts': {},
                            'branching_states': 0, 'max_tie_group': 0, 'distinct_final_states': 0,
                            'capped': None, 'violations': 1},
@@ -60,6 +63,12 @@ def run_line_job(job, seed):
                 break
             continue
         except HarnessError:
+            sd = split_differential(spec, mons, path, trace)
+            if isinstance(sd, tuple):
+                e2_viol.append({'clause': sd[0], 'detail': sd[1], 'path': [list(x) for x in path], 'scenario': spec['name']})
+                if len(e2_viol) >= 3:
+                    break
+                continue
             raise
         except Exception as e:
             if not trace:
@@ -71,6 +80,10 @@ def run_line_job(job, seed):
                 break
             continue
         if d2 != dg:
+            sd = split_differential(spec, mons, path, trace)
+            if isinstance(sd, tuple):
+                e2_viol.append({'clause': sd[0], 'detail': sd[1], 'path': [list(x) for x in path], 'scenario': spec['name']})
+                continue
             raise HarnessError(f'{spec["name"]}: E1/E2 divergence: fork-derived final state {dg} but the real '
                                f'simulate() reached {d2} on the same choice list')
         validated += 1
@@ -78,7 +91,7 @@ def run_line_job(job, seed):
             sample = [list(x) for x in path]
     # every explored split point: the path up to 'resume' is completed linearly (first tie choice, no further
     # operation) and the whole path is replayed through real consecutive simulate() calls
-    nw = 0
+    nw = nd = 0
     for wp in res.witnesses[:job.get('e2w', 150)]:
         if len(e2_viol) >= 3:
             break
@@ -96,6 +109,12 @@ def run_line_job(job, seed):
                 dg = lw.digest().hex()
         except Violation:
             continue          # reported by the exploration itself
+        sd = split_differential(spec, mons, full, trace)
+        if isinstance(sd, tuple):
+            e2_viol.append({'clause': sd[0], 'detail': sd[1], 'path': [list(x) for x in full], 'scenario': spec['name']})
+            continue
+        if sd == 'equal':
+            nd += 1
         try:
             d2 = run_e2(spec, lambda: make_monitors(mons), full, trace=trace)
         except Violation as v:
@@ -109,9 +128,66 @@ def run_line_job(job, seed):
     rj['violations'] += len(e2_viol)
     if nw:
         rj['facts']['split_points_replayed_through_real_simulate'] = nw
+    if nd:
+        rj['facts']['real_split_runs_equal_to_real_single_run'] = nd
     if trace:
         rj['facts']['traced_replays'] = validated
     return {'result': rj, 'violations': res.violations + e2_viol, 'validated': validated, 'sample': sample}
+
+
+def unsplit_path(path):
+    '''The same choice list for ONE uninterrupted run: split/resume removed, an operation issued between the two runs
+    becomes the same operation issued from an event at the split position.  None if the path has no such twin here
+    (several operations between two runs: their positions depend on what the first one schedules).'''
+    out = []
+    i = 0
+    path = [tuple(x) for x in path]
+    while i < len(path):
+        lab = path[i]
+        if lab[0] != 'split':
+            out.append(lab)
+            i += 1
+            continue
+        j = i + 1
+        xs = []
+        while j < len(path) and path[j][0] == 'xop':
+            xs.append(path[j][1])
+            j += 1
+        if j >= len(path) or path[j][0] != 'resume' or len(xs) > 1:
+            return None
+        if xs:
+            out.append(('op', xs[0], lab[1]))
+        i = j + 1
+    return out
+
+
+def split_differential(spec, mons, path, trace=False):
+    '''C14 on real runs only: the choice list of `path` replayed through ONE real simulate() and through the real
+    consecutive simulate() calls that `path` prescribes must end in the same state.  Returns a violation (clause,
+    detail) or None (equal, or no verdict possible).'''
+    if not any(l[0] == 'split' for l in path):
+        return None
+    up = unsplit_path(path)
+    if up is None:
+        return None
+    mf = lambda: make_monitors(mons)
+    try:
+        du = run_e2(spec, mf, up, trace=trace, norm_split=True)
+    except (HarnessError, Violation):
+        return None              # the unsplit twin does not follow this choice list: no verdict from this oracle
+    except Exception:
+        return None
+    try:
+        ds = run_e2(spec, mf, path, trace=trace, norm_split=True)
+    except Violation:
+        return None              # reported by the caller's own replay
+    except HarnessError as e:
+        return ('split_real', 'with these tie-break choices one real simulate() call runs to the end, but the real consecutive '
+                              f'simulate() calls do not follow the same choice list: {str(e)[:300]}')
+    if ds != du:
+        return ('split_real', 'one real simulate() call and the real consecutive simulate() calls end in different states '
+                              'under the same tie-break choices')
+    return 'equal'
 
 
 def replay_line(job, path, lenient=False):
@@ -137,10 +213,17 @@ def replay_line(job, path, lenient=False):
                         w.apply(tuple(lab))
                     except Violation as v:
                         return {'clause': v.clause, 'detail': v.detail, 'step': n}
+        sd = split_differential(spec, mons, [tuple(x) for x in path], bool(job.get('trace')))
+        if isinstance(sd, tuple):
+            return {'clause': sd[0], 'detail': sd[1], 'step': len(path)}
         return {'final': dg}
     except Violation as v:
         return {'clause': v.clause, 'detail': v.detail, 'step': getattr(v, 'mc_steps', 0)}
     except HarnessError:
+        if not lenient:
+            sd = split_differential(spec, mons, [tuple(x) for x in path], bool(job.get('trace')))
+            if isinstance(sd, tuple):
+                return {'clause': sd[0], 'detail': sd[1], 'step': len(path)}
         raise
     except Exception as e:
         clause, detail = runner.classify_exception(e)
